@@ -280,7 +280,9 @@ impl State {
             }
             return;
         }
-        if self.cfg.stall_ppm == 0 || self.stalled.is_some() || self.threads.len() > 200 {
+        // (at most four stalls per run: a lock holder stalled over and over would let spinners burn
+        // the run's whole step budget, which scenarios read as "never returns")
+        if self.cfg.stall_ppm == 0 || self.stalled.is_some() || self.threads.len() > 200 || self.stalls_fired >= 4 {
             return;
         }
         if self.rng.below(1_000_000) < self.cfg.stall_ppm as u64 {
@@ -804,7 +806,7 @@ fn start_thread(sim: &Arc<Sim>, name: &str, daemon: bool, f: Box<dyn FnOnce() + 
     {
         let mut st = sim.lock();
         tid = st.threads.len();
-        let prio = 1_000_000 + st.rng_prio();
+        let prio = (1u64 << 40) + st.rng_prio();
         st.threads.push(Th { name: name.to_string(), status: Status::Runnable, cv: cv.clone(), calls: 0, prio, timed_out: false, daemon });
         st.live += 1;
     }
@@ -944,7 +946,11 @@ where
             probes: BTreeMap::new(),
             trace: Vec::new(),
             pct_points,
-            pct_low: 1000,
+            // demoted priorities count down from here; they must stay below every initial priority
+            // (1 << 40 + random) and never run out within any step budget: with only 1000 of them a
+            // stalled lock holder let two spinners use them up, after which all ties went to the
+            // spinners and the holder starved (seen once in 800 000 thorough runs of C07)
+            pct_low: (1u64 << 40) - 1,
             live: 0,
             passthrough: false,
             os_handles: Vec::new(),
